@@ -268,7 +268,7 @@ Section Proofs.
     aligned val s ->
     aligned val (mkSession (s_bindings s)
                            (release_orphan_locals vnil (s_locals s) (keep_indices (s_bindings s)))
-                           (s_result s) (s_lrt_nil s)).
+                           (s_result s) (s_lrt_nil s) (s_pending s)).
   Proof.
     intros Ha x i Hin. cbn [s_bindings s_locals] in *.
     rewrite release_keeps by (eapply keep_indices_In; eassumption). now apply Ha.
@@ -372,16 +372,16 @@ Section Proofs.
 
   (* (1) compaction: never fails on a session whose variable slots exist, preserves alignment,
      keeps result and result type, and leaves local_count = physical length *)
-  Lemma compact_ok (s : @session V) :
+  Lemma compact_core_ok (s : @session V) :
     in_range s ->
     exists b' ls',
-      compact s = COk (mkSession b' ls' (s_result s) (s_lrt_nil s)) /\
+      compact_core s = COk (mkSession b' ls' (s_result s) (s_lrt_nil s) (s_pending s)) /\
       renumber (keep_indices (s_bindings s)) (s_bindings s) = Val b' /\
       length ls' = length (keep_indices (s_bindings s)) /\
       (forall j i, nth_error (keep_indices (s_bindings s)) j = Some i -> nth_error ls' j = nth_error (s_locals s) i) /\
       local_count b' = length ls'.
   Proof.
-    intros Hr. unfold compact. set (keep := keep_indices (s_bindings s)).
+    intros Hr. unfold compact_core. set (keep := keep_indices (s_bindings s)).
     destruct (renumber_total keep (s_bindings s)) as [b' Hb'].
     { intros i Hi. unfold keep, keep_indices. now apply (proj2 (sort_In _ _)). }
     rewrite Hb'.
@@ -392,18 +392,72 @@ Section Proofs.
     rewrite Hlen. now apply compact_local_count.
   Qed.
 
-  Lemma compact_aligned val (s : @session V) :
+  Lemma compact_core_aligned val (s : @session V) :
     aligned val s ->
-    exists s1, compact s = COk s1 /\ aligned val s1 /\
+    exists s1, compact_core s = COk s1 /\ aligned val s1 /\
                s_result s1 = s_result s /\ s_lrt_nil s1 = s_lrt_nil s /\
-               local_count (s_bindings s1) = length (s_locals s1).
+               local_count (s_bindings s1) = length (s_locals s1) /\ s_pending s1 = s_pending s.
   Proof.
-    intros Ha. destruct (compact_ok s (aligned_in_range _ _ Ha)) as (b' & ls' & Hc & Hr & Hlen & Hnth & Hlc).
-    eexists. split; [exact Hc|]. cbn [s_bindings s_locals s_result s_lrt_nil]. repeat split; try assumption.
+    intros Ha. destruct (compact_core_ok s (aligned_in_range _ _ Ha)) as (b' & ls' & Hc & Hr & Hlen & Hnth & Hlc).
+    eexists. split; [exact Hc|]. cbn [s_bindings s_locals s_result s_lrt_nil s_pending]. repeat split; try assumption.
     intros x j Hin. cbn [s_bindings s_locals] in *.
     destruct (renumber_In _ _ _ _ _ Hr Hin) as [[Hbd _]|(i & j' & Hbd & Hold & Hmap)]; [discriminate|].
     injection Hbd as <-. apply index_mapping_spec in Hmap. destruct Hmap as [Hn _].
     rewrite (Hnth _ _ Hn). now apply Ha.
+  Qed.
+
+  (* forget_unstored_bindings *)
+  Lemma retain_below_In n b x bd :
+    In (x, bd) (retain_below n b) <-> In (x, bd) b /\ match bd with BVar i => i < n | BAlias => True end.
+  Proof.
+    induction b as [|[y [k|]] b IH]; cbn [retain_below].
+    - cbn. tauto.
+    - destruct (Nat.ltb_spec k n) as [Hlt|Hge]; cbn [In]; rewrite IH.
+      + split; [intros [H|[H1 H2]]|intros [[H|H] H2]]; auto.
+        injection H as <- <-. auto.
+      + split; [intros [H1 H2]; auto|intros [[H|H] H2]; auto].
+        injection H as <- <-. lia.
+    - cbn [In]. rewrite IH. split; [intros [H|[H1 H2]]|intros [[H|H] H2]]; auto.
+      injection H as <- <-. auto.
+  Qed.
+
+  Lemma forget_pending (s : @session V) : s_pending (forget s) = None.
+  Proof. unfold forget. destruct (s_pending s) eqn:E; [reflexivity|assumption]. Qed.
+  Lemma forget_idem (s : @session V) : forget (forget s) = forget s.
+  Proof. unfold forget at 1. now rewrite forget_pending. Qed.
+  Lemma forget_none (s : @session V) : s_pending s = None -> forget s = s.
+  Proof. unfold forget. now intros ->. Qed.
+  Lemma forget_fields (s : @session V) :
+    s_locals (forget s) = s_locals s /\ s_result (forget s) = s_result s /\ s_lrt_nil (forget s) = s_lrt_nil s.
+  Proof. unfold forget. destruct (s_pending s); repeat split. Qed.
+
+  (* whatever a line bound, once the REPL has forgotten the variables beyond the reported locals
+     count every remaining variable addresses an existing slot (the repair of F51) *)
+  Lemma forget_in_range (s : @session V) :
+    s_pending s = Some (length (s_locals s)) -> in_range (forget s).
+  Proof.
+    intros Hp x i Hin. unfold forget in *. rewrite Hp in *. cbn [s_bindings s_locals] in *.
+    apply retain_below_In in Hin. tauto.
+  Qed.
+
+  (* (1) compaction (which begins by forgetting): never fails, preserves alignment, keeps result
+     and result type, leaves local_count = physical length *)
+  Lemma compact_aligned val (s : @session V) :
+    aligned val (forget s) ->
+    exists s1, compact s = COk s1 /\ aligned val s1 /\
+               s_result s1 = s_result s /\ s_lrt_nil s1 = s_lrt_nil s /\
+               local_count (s_bindings s1) = length (s_locals s1) /\ s_pending s1 = None.
+  Proof.
+    intros Ha. destruct (compact_core_aligned val _ Ha) as (s1 & Hc & Ha1 & Hr & Hl & Hlc & Hp).
+    destruct (forget_fields s) as (_ & Hfr & Hfl).
+    exists s1. unfold compact. rewrite Hr, Hl, Hp, Hfr, Hfl, forget_pending. auto 10.
+  Qed.
+
+  Lemma compact_in_range (s : @session V) :
+    in_range (forget s) -> exists s1, compact s = COk s1 /\ s_pending s1 = None.
+  Proof.
+    intros Hr. destruct (compact_core_ok _ Hr) as (b' & ls' & Hc & _).
+    eexists. split; [exact Hc|]. cbn. apply forget_pending.
   Qed.
 End Proofs.
 
@@ -411,30 +465,32 @@ Section Lines.
   Context {V : Type}.
   Variable vnil : V.
 
-  (* What the compiler and the VM must deliver for the bookkeeping to stay aligned: every variable
-     of the new map is either an old variable at its compacted slot with its old value, or lives
-     in a slot at or after the line's parameter slot n (= local_count = physical length after
-     compaction) that the line really stored (the parameter, i.e. the previous result, or one of
-     the line's own stores; only a line with expressions runs at all).  A short-circuited line that binds a variable it never stored (F51)
-     fails the last clause. *)
+  (* What the compiler must deliver for the bookkeeping to stay aligned (its slot discipline):
+     every variable of the new map is either an old variable at its compacted slot with its old
+     value, or lives in a slot at or after the line's parameter slot n (= local_count = physical
+     length after compaction), and then — IF the line stored that slot at all — the slot holds the
+     variable's value.  A variable whose slot was never stored (the line short-circuited before its
+     step) needs nothing: the REPL forgets it. *)
   Definition line_wf (s1 : @session V) (c : compiled) (r : @ran V) (val val' : name -> V) : Prop :=
     forall x i, In (x, BVar i) (c_bindings c) ->
       (i < length (s_locals s1) /\ In (x, BVar i) (s_bindings s1) /\ val' x = val x) \/
       (c_has_expr c = true /\ length (s_locals s1) <= i /\
-       nth_error (s_result s1 :: r_stored r) (i - length (s_locals s1)) = Some (val' x)).
+       (i < length (s_locals s1 ++ s_result s1 :: r_stored r) ->
+        nth_error (s_result s1 :: r_stored r) (i - length (s_locals s1)) = Some (val' x))).
 
-  (* (2) a successful line *)
+  (* (2) a successful line, observed after the REPL forgot the unstored variables *)
   Lemma line_aligned val val' (s1 : @session V) c r :
     aligned val s1 -> line_wf s1 c r val val' -> c_has_expr c = true ->
-    aligned val' (mkSession (c_bindings c)
+    aligned val' (forget (mkSession (c_bindings c)
                    (release_orphan_locals vnil (s_locals s1 ++ s_result s1 :: r_stored r) (keep_indices (c_bindings c)))
-                   (r_value r) (c_result_nil c)).
+                   (r_value r) (c_result_nil c) (Some (length (s_locals s1 ++ s_result s1 :: r_stored r))))).
   Proof.
-    intros Ha Hwf _ x i Hin. cbn [s_bindings s_locals] in *.
+    intros Ha Hwf _ x i Hin. unfold forget in *. cbn [s_pending s_bindings s_locals] in *.
+    apply retain_below_In in Hin. destruct Hin as [Hin Hlt].
     rewrite release_keeps by (eapply keep_indices_In; eassumption).
-    destruct (Hwf x i Hin) as [(Hlt & Hold & Hv)|(_ & Hge & Hn)].
+    destruct (Hwf x i Hin) as [(Hlt' & Hold & Hv)|(_ & Hge & Hn)].
     - rewrite nth_error_app1 by assumption. rewrite Hv. now apply Ha.
-    - rewrite nth_error_app2 by assumption. exact Hn.
+    - rewrite nth_error_app2 by assumption. exact (Hn Hlt).
   Qed.
 
   (* the parameter of a line is the stored result of the previous one (worker.rs:467-469) *)
@@ -442,34 +498,54 @@ Section Lines.
     nth_error (s_locals (run_line_unreleased s1 c r)) (length (s_locals s1)) = Some (s_result s1).
   Proof. cbn. rewrite nth_error_app2 by lia. now rewrite Nat.sub_diag. Qed.
 
-  (* repl_alignment: the invariant through a whole `evaluate`, whatever the line is *)
+  (* repl_alignment: the invariant (stated on the session as the REPL sees it once it has forgotten
+     the unstored variables, which it does before every compaction and lookup) through a whole
+     `evaluate`, whatever the line is *)
   Theorem repl_alignment_thm val (s : @session V) (l : line) :
-    aligned val s ->
+    aligned val (forget s) ->
     match l with
     | LParseError => evaluate vnil s l = EParseError s
-    | LCompileError => exists s1, evaluate vnil s l = ECompileError s1 /\ aligned val s1
+    | LCompileError => exists s1, evaluate vnil s l = ECompileError s1 /\ aligned val (forget s1)
     | LOk c r =>
         exists s1, compact s = COk s1 /\ aligned val s1 /\
                    local_count (s_bindings s1) = length (s_locals s1) /\
         forall val', line_wf s1 c r val val' ->
           if c_has_expr c
-          then exists s', evaluate vnil s l = EValue (r_value r) s' /\ aligned val' s' /\ s_result s' = r_value r
-          else exists s', evaluate vnil s l = ENone s' /\ aligned val' s' /\ s_result s' = s_result s
+          then exists s', evaluate vnil s l = EValue (r_value r) s' /\ aligned val' (forget s') /\ s_result s' = r_value r
+          else exists s', evaluate vnil s l = ENone s' /\ aligned val' (forget s') /\ s_result s' = s_result s
     end.
   Proof.
     intros Ha. destruct l as [| |c r].
     - reflexivity.
-    - destruct (compact_aligned val s Ha) as (s1 & Hc & Ha1 & _). exists s1. cbn. now rewrite Hc.
-    - destruct (compact_aligned val s Ha) as (s1 & Hc & Ha1 & Hres & _ & Hlc).
+    - destruct (compact_aligned val s Ha) as (s1 & Hc & Ha1 & _ & _ & _ & Hp). exists s1. cbn. rewrite Hc.
+      split; [reflexivity|]. now rewrite (forget_none _ Hp).
+    - destruct (compact_aligned val s Ha) as (s1 & Hc & Ha1 & Hres & _ & Hlc & Hp).
       exists s1. repeat split; try assumption. intros val' Hwf. cbn [evaluate]. rewrite Hc.
       destruct (c_has_expr c) eqn:Ehe.
       + eexists. split; [reflexivity|]. split; [|reflexivity]. now apply (line_aligned val val').
       + eexists. split; [reflexivity|]. split; [|now cbn].
+        rewrite forget_none by (cbn; assumption).
         intros x i Hin. cbn [s_bindings s_locals] in *.
         destruct (Hwf x i Hin) as [(Hlt & Hold & Hv)|(Hhe & _)].
         * rewrite Hv. now apply Ha1.
         * (* a line without expressions stores nothing: it cannot introduce a variable *)
           congruence.
+  Qed.
+
+  (* the repair of F51 in general: whatever a line with expressions binds and stores, the session
+     it leaves can be compacted (no LocalNotFound out of Worker::step), i.e. the next line runs *)
+  Theorem session_survives_thm (s : @session V) c r :
+    in_range (forget s) -> c_has_expr c = true ->
+    exists s', evaluate vnil s (LOk c r) = EValue (r_value r) s' /\ in_range (forget s') /\
+               exists s1', compact s' = COk s1'.
+  Proof.
+    intros Hr He. destruct (compact_in_range s Hr) as (s1 & Hc & _).
+    cbn [evaluate]. rewrite Hc, He. eexists. split; [reflexivity|].
+    assert (Hir : in_range (forget (mkSession (c_bindings c)
+              (release_orphan_locals vnil (s_locals s1 ++ s_result s1 :: r_stored r) (keep_indices (c_bindings c)))
+              (r_value r) (c_result_nil c) (Some (length (s_locals s1 ++ s_result s1 :: r_stored r)))))).
+    { apply forget_in_range. cbn [s_pending s_locals]. now rewrite release_length. }
+    split; [exact Hir|]. destruct (compact_in_range _ Hir) as (s1' & Hc' & _). eauto.
   Qed.
 End Lines.
 
@@ -526,35 +602,40 @@ Section Rejected.
   Proof. reflexivity. Qed.
 
   (* a line the compiler rejects: `compact` has already run (repl.rs:95 precedes 118-129), so the
-     session is the compacted one: same names, same aliases, same stored result and result type,
+     session is the compacted one (of the session as it is after forgetting the variables the last
+     line never stored, which `compact` does first): same names, same aliases, same stored result and result type,
      variable indices renumbered by `index_mapping (keep_indices ..)`, locals gathered in that
      order — and every observation a user can make is unchanged *)
   Theorem rejected_by_compiler_inert val (s : @session V) :
-    aligned val s ->
+    aligned val (forget s) ->
     exists s1,
       evaluate vnil s LCompileError = ECompileError s1 /\
-      renumber (keep_indices (s_bindings s)) (s_bindings s) = Val (s_bindings s1) /\
-      map fst (s_bindings s1) = map fst (s_bindings s) /\
+      renumber (keep_indices (s_bindings (forget s))) (s_bindings (forget s)) = Val (s_bindings s1) /\
+      map fst (s_bindings s1) = map fst (s_bindings (forget s)) /\
       s_result s1 = s_result s /\ s_lrt_nil s1 = s_lrt_nil s /\
       (forall x, request_variable s1 x = request_variable s x) /\
-      get_variables s1 = get_variables s /\
-      (forall x, lookup x (s_bindings s1) = Some BAlias <-> lookup x (s_bindings s) = Some BAlias) /\
-      aligned val s1.
+      get_variables s1 = get_variables (forget s) /\
+      (forall x, lookup x (s_bindings s1) = Some BAlias <-> lookup x (s_bindings (forget s)) = Some BAlias) /\
+      aligned val (forget s1).
   Proof.
-    intros Ha. pose proof (aligned_in_range _ _ Ha) as Hrange.
-    destruct (compact_ok s Hrange) as (b' & ls' & Hc & Hr & Hlen & Hnth & Hlc).
-    destruct (compact_aligned val s Ha) as (s1' & Hc' & Ha1 & _).
+    intros Ha. set (s0 := forget s) in *. pose proof (aligned_in_range _ _ Ha) as Hrange.
+    destruct (compact_core_ok s0 Hrange) as (b' & ls' & Hc & Hr & Hlen & Hnth & Hlc).
+    destruct (compact_core_aligned val s0 Ha) as (s1' & Hc' & Ha1 & _).
     rewrite Hc in Hc'. injection Hc' as <-.
-    eexists. split; [cbn [evaluate]; rewrite Hc; reflexivity|].
+    destruct (forget_fields s) as (_ & Hfr & Hfl). fold s0 in Hfr, Hfl.
+    assert (Hp0 : s_pending s0 = None) by apply forget_pending.
+    eexists. split; [cbn [evaluate]; unfold compact; fold s0; rewrite Hc; reflexivity|].
     cbn [s_bindings s_locals s_result s_lrt_nil].
     split; [assumption|]. split; [eapply renumber_keys; eassumption|].
-    split; [reflexivity|]. split; [reflexivity|].
-    split; [|split; [|split; [|assumption]]].
-    - intros x. unfold request_variable. cbn [s_bindings s_locals].
+    split; [assumption|]. split; [assumption|].
+    split; [|split; [|split]].
+    - intros x. unfold request_variable. fold s0.
+      rewrite (forget_none (mkSession b' ls' (s_result s0) (s_lrt_nil s0) (s_pending s0))) by (cbn; assumption).
+      cbn [s_bindings s_locals].
       rewrite (renumber_lookup _ _ _ x Hr).
-      destruct (lookup x (s_bindings s)) as [[i|]|] eqn:El; try reflexivity.
+      destruct (lookup x (s_bindings s0)) as [[i|]|] eqn:El; try reflexivity.
       pose proof (lookup_In _ _ _ El) as Hin.
-      destruct (index_mapping_from_complete 0 (keep_indices (s_bindings s)) i) as [j Hj];
+      destruct (index_mapping_from_complete 0 (keep_indices (s_bindings s0)) i) as [j Hj];
         [eapply keep_indices_In; eassumption|].
       unfold index_mapping. rewrite Hj. cbn [option_map].
       pose proof (index_mapping_spec _ _ _ Hj) as [Hn _]. rewrite (Hnth _ _ Hn). now rewrite (Ha x i Hin).
@@ -562,8 +643,9 @@ Section Rejected.
       eapply F2_names. apply sort_by_index_F2; [apply sort_sorted|].
       exact (renumber_vars_of _ _ _ Hr).
     - intros x. rewrite (renumber_lookup _ _ _ x Hr).
-      destruct (lookup x (s_bindings s)) as [[i|]|]; try tauto.
+      destruct (lookup x (s_bindings s0)) as [[i|]|]; try tauto.
       destruct (index_mapping _ i); cbn; split; discriminate.
+    - rewrite forget_none by (cbn; assumption). assumption.
   Qed.
 End Rejected.
 
@@ -642,10 +724,10 @@ End Split.
 Module Examples.
   (* values are numbers, nil is 0; names: x = 0, t = 1 (an alias), z = 2, w = 3 *)
   Definition s_ex : @session nat :=
-    mkSession [(0, BVar 3); (1, BAlias); (2, BVar 1)] [0; 20; 0; 10] 77 false.
+    mkSession [(0, BVar 3); (1, BAlias); (2, BVar 1)] [0; 20; 0; 10] 77 false None.
   Definition val_ex (x : name) : nat := match x with 0 => 10 | 2 => 20 | _ => 0 end.
 
-  Lemma s_ex_aligned : aligned val_ex s_ex.
+  Lemma s_ex_aligned : aligned val_ex (forget s_ex).
   Proof.
     intros x i Hin. cbn in Hin.
     destruct Hin as [H|[H|[H|[]]]]; try discriminate; injection H as <- <-; reflexivity.
@@ -653,7 +735,7 @@ Module Examples.
 
   (* compaction really renumbers here: x 3 -> 1, z 1 -> 0, locals [20; 10] *)
   Example compact_ex :
-    compact s_ex = COk (mkSession [(0, BVar 1); (1, BAlias); (2, BVar 0)] [20; 10] 77 false).
+    compact s_ex = COk (mkSession [(0, BVar 1); (1, BAlias); (2, BVar 0)] [20; 10] 77 false None).
   Proof. reflexivity. Qed.
 
   (* a line `w = <99>, x = <55>` (shadowing x): parameter at slot 2, w at 3, a temporary at 4, x at 5 *)
@@ -662,7 +744,7 @@ Module Examples.
   Definition val_ex' (x : name) : nat := match x with 0 => 55 | 2 => 20 | 3 => 99 | _ => 0 end.
 
   Example line_wf_ex :
-    line_wf (mkSession [(0, BVar 1); (1, BAlias); (2, BVar 0)] [20; 10] 77 false) c_ex r_ex val_ex val_ex'.
+    line_wf (mkSession [(0, BVar 1); (1, BAlias); (2, BVar 0)] [20; 10] 77 false None) c_ex r_ex val_ex val_ex'.
   Proof.
     intros x i Hin. cbn in Hin.
     destruct Hin as [H|[H|[H|[H|[]]]]]; try discriminate; injection H as <- <-; cbn.
@@ -673,12 +755,12 @@ Module Examples.
 
   Example evaluate_ex :
     evaluate 0 s_ex (LOk c_ex r_ex) =
-    EValue 1 (mkSession [(0, BVar 5); (1, BAlias); (2, BVar 0); (3, BVar 3)] [20; 0; 0; 99; 0; 55] 1 false).
+    EValue 1 (mkSession [(0, BVar 5); (1, BAlias); (2, BVar 0); (3, BVar 3)] [20; 0; 0; 99; 0; 55] 1 false (Some 6)).
   Proof. reflexivity. Qed.
 
   (* the compile-rejected line on the same session: observationally the same session *)
   Example rejected_ex :
-    evaluate 0 s_ex LCompileError = ECompileError (mkSession [(0, BVar 1); (1, BAlias); (2, BVar 0)] [20; 10] 77 false)
+    evaluate 0 s_ex LCompileError = ECompileError (mkSession [(0, BVar 1); (1, BAlias); (2, BVar 0)] [20; 10] 77 false None)
     /\ get_variables s_ex = [2; 0]
     /\ request_variable s_ex 0 = WOk 10.
   Proof. repeat split. Qed.
@@ -695,21 +777,26 @@ Module Examples.
     run_lines exec_ex (Nat.eqb 0) [[1; 0]; [3]] [] 0 <> run_seq exec_ex (Nat.eqb 0) (concat [[1; 0]; [3]]) [] 0.
   Proof. cbn. discriminate. Qed.
 
-  (* F51: the line `5 =6, x = 7` on a fresh session: the compiler returns x at slot 1, the run
-     stores only the parameter (the second step is skipped).  The committed session violates the
-     invariant for every valuation, `request_variable x` fails, and the next non-parse line makes
-     the worker fail on CompactLocals. *)
+  (* F51 (repaired by fd5925d): the line `5 =6, x = 7` on a fresh session: the compiler returns x at
+     slot 1, the run stores only the parameter (the second step is skipped), the worker reports 1
+     local.  The REPL forgets x: `request_variable x` answers VariableNotFound, the invariant holds
+     on what is left, and the next line compacts and runs (before the repair: LocalNotFound out of
+     Worker::step, the session was lost). *)
   Definition c_f51 : compiled := mkCompiled [(0, BVar 1)] true false.
   Definition r_f51 : @ran nat := mkRan [] 0.
-  Definition s_f51 : @session nat := mkSession [(0, BVar 1)] [0] 0 false.
-  Lemma shortcircuit_refuted :
-    (forall val, aligned val (@initial nat 0)) /\
+  Definition s_f51 : @session nat := mkSession [(0, BVar 1)] [0] 0 false (Some 1).
+  Lemma shortcircuit_survives :
     evaluate 0 (initial 0) (LOk c_f51 r_f51) = EValue 0 s_f51 /\
     (forall val, ~ aligned val s_f51) /\
-    request_variable s_f51 0 = WErr (LocalNotFound 1) /\
-    evaluate 0 s_f51 LCompileError = EWorkerError (LocalNotFound 1) (mkSession [(0, BVar 0)] [0] 0 false).
+    (forall val, aligned val (forget s_f51)) /\
+    request_variable s_f51 0 = WErr VariableNotFound /\
+    get_variables s_f51 = [0] /\
+    evaluate 0 s_f51 LCompileError = ECompileError (mkSession [] [] 0 false None) /\
+    evaluate 0 s_f51 (LOk (mkCompiled [(1, BVar 1)] true false) (mkRan [9] 1))
+      = EValue 1 (mkSession [(1, BVar 1)] [0; 9] 1 false (Some 2)).
   Proof.
-    split; [intros val x i []|]. split; [reflexivity|]. split; [|split; reflexivity].
-    intros val Ha. specialize (Ha 0 1 (or_introl eq_refl)). discriminate.
+    split; [reflexivity|]. split.
+    { intros val Ha. specialize (Ha 0 1 (or_introl eq_refl)). discriminate. }
+    split; [intros val x i []|]. repeat split.
   Qed.
 End Examples.
